@@ -360,7 +360,7 @@ def partition(n, cuts):
         'Average / Welford (mean, population std, standard error) / Accuracy '
         '(multi-class and thresholded binary) / MultiMetric report the '
         'statistic of the concatenated stream for both partitions; reset then '
-        'reuse starts from scratch; non-trivial = the two partitions differ '
+        'reuse starts from scratch, also after inf / nan values; non-trivial = the two partitions differ '
         'and have >=2 batches')
 def metrics(case, ctx):
   vals = np.asarray(case['values'], np.float64) / 100.0
@@ -453,6 +453,32 @@ def metrics(case, ctx):
         float(w.compute().mean), 3.0) and np.isclose(
             float(w.compute().standard_deviation), 1.0),
             'reset did not clear the metric')
+  # reset after a diverged stream: non-finite values seen before the reset
+  # (an exploded loss) are not part of "the values seen since the last reset"
+  bad = [[np.inf], [-np.inf], [np.nan], [np.inf, -np.inf], [1.0, np.nan]][
+      case['seed'] % 5]
+  with sut('reset after non-finite values'):
+    m3, w3 = nnx.metrics.Average(), nnx.metrics.Welford()
+    mm3 = nnx.MultiMetric(avg=nnx.metrics.Average(),
+                          acc=nnx.metrics.Accuracy())
+    for mt in (m3, w3):
+      mt.update(values=jnp.asarray(bad, jnp.float32))
+      mt.reset()
+      mt.update(values=jnp.asarray([2.0, 4.0]))
+    mm3.update(values=jnp.asarray(bad, jnp.float32), logits=jnp.asarray(
+        logits[:1]), labels=jnp.asarray(labels[:1]))
+    mm3.reset()
+    mm3.update(values=jnp.asarray([2.0, 4.0]), logits=jnp.asarray(logits),
+               labels=jnp.asarray(labels))
+    r3 = mm3.compute()
+    got3 = (float(m3.compute()), float(w3.compute().mean),
+            float(w3.compute().standard_deviation), float(r3['avg']),
+            float(r3['acc']))
+  require(np.allclose(got3, (3.0, 3.0, 1.0, 3.0, exp_acc), **tol), lambda:
+          f'after update({bad}), reset(), update([2, 4]): Average, Welford '
+          f'mean/std, MultiMetric avg/acc = {got3}, expected (3, 3, 1, 3, '
+          f'{exp_acc})')
+
   big = case['seed'] % 6 == 0
   if big:
     # long streams (per-token losses): batching independence must also hold
